@@ -158,6 +158,48 @@ def nwchem_layout(ctx, b, label):
         ctx.compare('nw_read_electron', norm_read(got), norm_read(ctx.model.call('nw_read_electron', lines)), dict(replay, variant=variant))
 
 
+def electron_only(b):
+    e = copy.deepcopy(b)
+    for z in list(e['elements']):
+        el = e['elements'][z]
+        el.pop('ecp_potentials', None)
+        el.pop('ecp_electrons', None)
+        if not el.get('electron_shells'):
+            del e['elements'][z]
+    e['function_types'] = gen.whole_types(e['elements'])
+    return e
+
+
+def g94_layout(ctx, b, label):
+    """the modelled Gaussian94 electron part (coq/Model/G94.v, round trip proved in Proofs/G94Spec.v) against writers/g94.py
+    and readers/g94.py on the same shells (input: the basis without its ECP part)"""
+    from basis_set_exchange import writers, readers, manip, sort
+    if ctx.model is None:
+        return
+    e = electron_only(b)
+    if not e['elements']:
+        return
+    w = impl.call(writers.write_formatted_basis_str, copy.deepcopy(e), 'gaussian94')
+    pb = impl.call(lambda x: sort.sort_basis(manip.uncontract_spdf(manip.uncontract_general(x, True), 1, False), False), copy.deepcopy(e))
+    if w[0] != 'ok' or pb[0] != 'ok' or len(w[1]) > 200000:
+        return
+    els = [[int(z), el['electron_shells']] for z, el in pb[1]['elements'].items()]
+    replay = {'kind': 'g94-layout', 'label': label, 'input': e if len(str(e)) < 15000 else None}
+    ctx.case((label, 'g94-layout'), True, 'g94-layout')
+    ctx.compare('g94_write_electron', ('ok', w[1]), ctx.model.call('g94_write_electron', els), replay)
+    for variant, lines in (('as-written', w[1].splitlines()), ('damaged', damage_lines(w[1].splitlines(), random.Random(len(w[1]))))):
+        r = impl.call(readers.read_formatted_basis_str, '\n'.join(lines) + '\n', 'gaussian94')
+        got = r
+        if r[0] == 'ok':
+            got = ('ok', [[int(z), el.get('electron_shells', [])] for z, el in r[1]['elements'].items()])
+        m = ctx.model.call('g94_read_electron', lines)
+        if m == ('error', 'NotImplementedError') or m[0] == 'error' and 'NotImpl' in str(m[1]):
+            ctx.dist['g94-read:outside-modelled-fragment'] += 1       # scale factors != 1 and ECP-looking blocks
+            continue
+        ctx.case((label, 'g94-read', variant), True, 'g94-read:' + variant)
+        ctx.compare('g94_read_electron', norm_read(got), norm_read(m), dict(replay, variant=variant))
+
+
 def norm_read(r):
     if r[0] != 'ok':
         return ('error', 'any')      # the reader's error classes (RuntimeError / KeyError / IndexError ...) are not part of the property
@@ -238,6 +280,7 @@ def work_store(ctx, item):
     for fmt in rw_formats():
         roundtrip(ctx, b, fmt, label, 'store')
     nwchem_layout(ctx, b, label)
+    g94_layout(ctx, b, label)
     if rng.random() < (1.0 if ctx.thorough() else 0.4):
         file_and_convert(ctx, b, label, rng)
     ctx.sample({'store': label, 'formats': rw_formats()})
@@ -272,6 +315,7 @@ def work_generated(ctx, seed):
     for fmt in rw_formats():
         roundtrip(ctx, b, fmt, 'gen:%d:%s' % (seed, kind), 'generated:' + kind)
     nwchem_layout(ctx, b, 'gen:%d:%s' % (seed, kind))
+    g94_layout(ctx, b, 'gen:%d:%s' % (seed, kind))
     if seed % 5 == 0 and kind == 'plain':
         file_and_convert(ctx, b, 'gen:%d' % seed, rng)
 
